@@ -31,11 +31,29 @@ def main(argv):
         if r["verdict"] == "sat" and "-m" in sys.argv:
             print("   model:", {k: v for k, v in (r["model"] or {}).items() if not k.startswith("hv")})
     print("total %.2fs, not proved: %d" % (time.time() - t0, bad))
+    if "-v" in sys.argv:
+        from pyvc.engine import VC
+        import z3
+        vac = []
+        for vc in v.vcs:
+            if vc.meta.get("trivial"):
+                continue
+            c = VC(vc.name + "?vacuity", vc.hyps, vc.schemas, z3.BoolVal(False), vc.extra_terms, dict(vc.meta, z3_t1=5, cvc5_t=5, z3_t2=1))
+            # keep the goal's terms for instantiation
+            c.extra_terms = list(c.extra_terms)
+            c.meta["goal_terms"] = vc.goal
+            vac.append(c)
+        res2 = smt.solve_vcs(vac)
+        nv = sum(1 for r in res2 if r["verdict"] == "unsat")
+        print("vacuity probes: %d, vacuous (hyps inconsistent): %d" % (len(vac), nv))
+        for r in res2:
+            if r["verdict"] == "unsat":
+                print("   VACUOUS", r["name"])
     print("assumptions:", sorted(v.used_assumptions))
 
 if __name__ == "__main__":
     try:
-        main([a for a in sys.argv[1:] if a != "-m"])
+        main([a for a in sys.argv[1:] if a not in ("-m", "-v")])
     except Exception:
         traceback.print_exc()
         sys.exit(3)
